@@ -33,7 +33,16 @@ type wrapper struct {
 	kind int
 }
 
-var kindNames = []string{"", "?", "x"}
+var kindNames = []string{"", "?", "x", ""}
+
+// tokRune is the first rune of token i: kind 3 is a LINE BREAK token (a grammar that consumes line breaks itself,
+// as line-oriented languages do), every other kind starts with the i-th letter
+func tokRune(i, kind int) rune {
+	if kind == 3 {
+		return '\n'
+	}
+	return tokenRunes[i]
+}
 
 // tokenParser builds token i of the given kind.
 func tokenParser(i, kind int) parsley.Parser {
@@ -42,6 +51,8 @@ func tokenParser(i, kind int) parsley.Parser {
 		return combinator.Choice(terminal.Rune(tokenRunes[i]), parser.Empty())
 	case 2:
 		return combinator.SeqOf(terminal.Rune(tokenRunes[i]), terminal.Rune('x')).Bind(concatInterp)
+	case 3:
+		return terminal.Rune('\n')
 	}
 	return terminal.Rune(tokenRunes[i])
 }
@@ -86,6 +97,10 @@ var reducedWrappers = []wrapper{{}, {hasL: true, l: text.WsSpaces}, {hasL: true,
 
 var tokenRunes = []rune{'a', 'b', 'c'}
 
+// c10Named: the token sequence carries a Name (Sequence.Name): a not-found error at its start is then reported as
+// "was expecting <name>", a whitespace error must still be the mode's own
+var c10Named = false
+
 func buildSeq(ws []wrapper) parsley.Parser {
 	ps := make([]parsley.Parser, len(ws))
 	for i, w := range ws {
@@ -98,6 +113,9 @@ func buildSeq(ws []wrapper) parsley.Parser {
 		}
 		ps[i] = p
 	}
+	if c10Named {
+		return combinator.Sentence(combinator.SeqOf(ps...).Name("token sequence").Bind(concatInterp))
+	}
 	return combinator.Sentence(combinator.SeqOf(ps...).Bind(concatInterp))
 }
 
@@ -108,7 +126,7 @@ func buildSeq(ws []wrapper) parsley.Parser {
 // must still be the one reported.
 func buildSeqAlt(ws []wrapper) parsley.Parser {
 	wrap := func(i int) parsley.Parser {
-		var p parsley.Parser = terminal.Rune(tokenRunes[i])
+		p := tokenParser(i, ws[i].kind)
 		if ws[i].hasL {
 			p = text.LeftTrim(p, ws[i].l)
 		}
@@ -118,7 +136,11 @@ func buildSeqAlt(ws []wrapper) parsley.Parser {
 		return p
 	}
 	lenient := combinator.SeqOf(terminal.Rune(tokenRunes[0]), text.LeftTrim(terminal.Rune(tokenRunes[1]), text.WsSpacesNl), text.LeftTrim(terminal.Rune(tokenRunes[2]), text.WsSpacesNl))
-	return combinator.Sentence(combinator.SeqOf(combinator.Any(lenient, wrap(0)), wrap(1)))
+	ps := []parsley.Parser{combinator.Any(lenient, wrap(0))}
+	for i := 1; i < len(ws); i++ {
+		ps = append(ps, wrap(i))
+	}
+	return combinator.Sentence(combinator.SeqOf(ps...))
 }
 
 var wsMsg = map[text.WsMode]string{text.WsNone: "whitespaces are not allowed", text.WsSpaces: "new line is not allowed", text.WsSpacesForceNl: "was expecting a new line"}
@@ -171,7 +193,7 @@ func c10Spec(ws []wrapper, d []byte) c10Expect {
 		if w.hasL {
 			end, nl := runAt(d, pos)
 			if ok, at := modeVerdict(w.l, pos, end, nl); !ok {
-				if w.kind != 1 && (end >= len(d) || d[end] != byte(tokenRunes[i])) {
+				if w.kind != 1 && (end >= len(d) || d[end] != byte(tokRune(i, w.kind))) {
 					// the run is not next to the token at all (something else follows it): the statement speaks of runs
 					// next to a token; which error is reported here is not specified
 					return c10Expect{}
@@ -180,7 +202,7 @@ func c10Spec(ws []wrapper, d []byte) c10Expect {
 			}
 			pos = end
 		}
-		present := pos < len(d) && d[pos] == byte(tokenRunes[i])
+		present := pos < len(d) && d[pos] == byte(tokRune(i, w.kind))
 		switch {
 		case w.kind == 1 && !present:
 			// an absent optional token: an empty match at this position
@@ -218,6 +240,7 @@ type c10Case struct {
 	// History: inputs parsed before with the SAME parser object (one is built per wrapper assignment)
 	History  []string  `json:"inputs_parsed_before_with_this_parser,omitempty"`
 	Alt      bool      `json:"lenient_lookahead_alternative,omitempty"`
+	Named    bool      `json:"sequence_has_a_name,omitempty"`
 	Wrappers []wrapper `json:"-"`
 	W        []string  `json:"wrappers"`
 	Codes    [][5]int  `json:"codes"` // hasL,l,hasR,r
@@ -225,7 +248,7 @@ type c10Case struct {
 }
 
 func mkCase(ws []wrapper, input string, alt bool) c10Case {
-	c := c10Case{Input: strconv.Quote(input), Alt: alt}
+	c := c10Case{Input: strconv.Quote(input), Alt: alt, Named: c10Named}
 	for _, w := range ws {
 		c.W = append(c.W, w.String())
 		b := func(x bool) int {
@@ -258,11 +281,14 @@ func c10One(res *explore.Result, ws []wrapper, p parsley.Parser, input string, a
 	res.Add("transitions", 1)
 	names := make([]string, len(ws))
 	for i, w := range ws {
-		names[i] = w.around("'" + string(tokenRunes[i]) + "'")
+		names[i] = w.around(strconv.QuoteRune(tokRune(i, w.kind)))
 	}
 	where := fmt.Sprintf("Sentence(SeqOf(%s)) on %s", strings.Join(names, ", "), q(input))
+	if c10Named {
+		where = fmt.Sprintf("Sentence(SeqOf(%s).Name(...)) on %s", strings.Join(names, ", "), q(input))
+	}
 	if alt {
-		where = fmt.Sprintf("Sentence(SeqOf(Any(SeqOf('a', LeftTrim('b',WsSpacesNl), LeftTrim('c',WsSpacesNl)), %s), %s)) on %s", names[0], names[1], q(input))
+		where = fmt.Sprintf("Sentence(SeqOf(Any(SeqOf('a', LeftTrim('b',WsSpacesNl), LeftTrim('c',WsSpacesNl)), %s), %s)) on %s", names[0], strings.Join(names[1:], ", "), q(input))
 	}
 	cs := mkCase(ws, input, alt)
 	cs.History = append([]string{}, c10History...)
@@ -314,7 +340,7 @@ func c10One(res *explore.Result, ws []wrapper, p parsley.Parser, input string, a
 				continue
 			}
 			lit, isLit := c.(parsley.LiteralNode)
-			if !isLit || lit.Value() != tokenRunes[i] || int(c.Pos())-base != exp.tokStart[i] || int(c.ReaderPos())-base != exp.tokEnd[i] {
+			if !isLit || lit.Value() != tokRune(i, ws[i].kind) || int(c.Pos())-base != exp.tokStart[i] || int(c.ReaderPos())-base != exp.tokEnd[i] {
 				res.Violate("wrong-token-span", fmt.Sprintf("%s: token %d is %v<%d,%d>, expected %q<%d,%d> (own start, end moved only by a right trim)", where, i, c.Token(), int(c.Pos())-base, int(c.ReaderPos())-base, string(tokenRunes[i]), exp.tokStart[i], exp.tokEnd[i]), cs)
 				return
 			}
@@ -338,6 +364,10 @@ func wsStrings(maxLen int) []string {
 }
 
 type c10Plan struct {
+	// lines: three tokens, the middle one a line-break token without trims (a line-oriented grammar), behind the
+	// lenient look-ahead alternative, which probes the whitespace after the first token on a path that is abandoned
+	lines bool
+	named    bool // the sequence carries a Name
 	kinds    bool // every assignment of token kinds {rune, optional rune, two-rune phrase} except all-rune; every token text variant
 	alt      bool
 	k        int
@@ -349,15 +379,20 @@ type c10Plan struct {
 func c10Plans(tier string) []c10Plan {
 	all := allWrappers()
 	if tier == "thorough" {
-		return []c10Plan{{false, false, 1, all, 3, 0}, {false, false, 2, all, 2, 3}, {false, false, 3, reducedWrappers, 1, 2}, {false, true, 2, all, 1, 3},
-			{true, false, 1, all, 2, 0}, {true, false, 2, all, 1, 2}, {true, false, 3, reducedWrappers, 1, 1}}
+		return []c10Plan{{false, false, false, false, 1, all, 3, 0}, {false, false, false, false, 2, all, 2, 3}, {false, false, false, false, 3, reducedWrappers, 1, 2}, {false, false, false, true, 2, all, 1, 3},
+			{false, false, true, false, 1, all, 2, 0}, {false, false, true, false, 2, all, 1, 2}, {false, false, true, false, 3, reducedWrappers, 1, 1},
+			{false, true, false, false, 1, all, 2, 0}, {false, true, false, false, 2, all, 1, 2},
+			{true, false, false, true, 3, all, 1, 2}}
 	}
-	return []c10Plan{{false, false, 1, all, 2, 0}, {false, false, 2, all, 1, 2}, {false, false, 3, reducedWrappers, 1, 1}, {false, true, 2, all, 1, 2},
-		{true, false, 1, all, 1, 0}, {true, false, 2, all, 1, 1}}
+	return []c10Plan{{false, false, false, false, 1, all, 2, 0}, {false, false, false, false, 2, all, 1, 2}, {false, false, false, false, 3, reducedWrappers, 1, 1}, {false, false, false, true, 2, all, 1, 2},
+		{false, false, true, false, 1, all, 1, 0}, {false, false, true, false, 2, all, 1, 1},
+		{false, true, false, false, 1, all, 1, 0}, {false, true, false, false, 2, all, 1, 1},
+		{true, false, false, true, 3, all, 1, 1}}
 }
 
 func c10Run(env *explore.Env) *explore.Result {
 	res := explore.NewResult()
+	defer func() { c10Named = false }()
 	var idx int64
 	for _, pl := range c10Plans(env.Tier) {
 		outer, inner := wsStrings(pl.outer), wsStrings(pl.inner)
@@ -371,6 +406,7 @@ func c10Run(env *explore.Env) *explore.Result {
 					return
 				}
 				ws := append([]wrapper{}, combo...)
+				c10Named = pl.named
 				if pl.kinds {
 					plain := true
 					for _, w := range ws {
@@ -419,6 +455,8 @@ func c10Run(env *explore.Env) *explore.Result {
 								variants = []string{c, ""}
 							case 2:
 								variants = []string{c + "x", c}
+							case 3:
+								variants = []string{"\n"}
 							}
 							for _, v := range variants {
 								texts[j] = v
@@ -450,6 +488,11 @@ func c10Run(env *explore.Env) *explore.Result {
 				}
 				return
 			}
+			if pl.lines && i == 1 {
+				combo[i] = wrapper{kind: 3}
+				recW(i + 1)
+				return
+			}
 			for _, w := range pl.wrappers {
 				kinds := []int{0}
 				if pl.kinds {
@@ -469,6 +512,7 @@ func c10Run(env *explore.Env) *explore.Result {
 
 func c10Replay(raw json.RawMessage) *explore.Result {
 	res := explore.NewResult()
+	defer func() { c10Named = false }()
 	var c c10Case
 	if err := json.Unmarshal(raw, &c); err != nil {
 		res.Notes = append(res.Notes, "bad case")
@@ -483,8 +527,9 @@ func c10Replay(raw json.RawMessage) *explore.Result {
 	for _, code := range c.Codes {
 		ws = append(ws, wrapper{hasL: code[0] == 1, l: text.WsMode(code[1]), hasR: code[2] == 1, r: text.WsMode(code[3]), kind: code[4]})
 	}
+	c10Named = c.Named
 	p := buildSeq(ws)
-	if c.Alt && len(ws) == 2 {
+	if c.Alt && len(ws) >= 2 {
 		p = buildSeqAlt(ws)
 	}
 	c10History = nil
